@@ -222,7 +222,8 @@ func sync_runtime_notifyListAdd(l *notifyList) uint32 {
 func sync_runtime_notifyListWait(l *notifyList, t uint32) {
 	st := getNotifyState(l)
 	st.mu.Lock()
-	for latomic.LoadUint32(&l.notify) == t {
+	// wait until the notify counter has moved past ticket t (wrap-around safe)
+	for int32(latomic.LoadUint32(&l.notify)-t) <= 0 {
 		st.cond.Wait(&st.mu)
 	}
 	st.mu.Unlock()
@@ -243,7 +244,9 @@ func sync_runtime_notifyListNotifyOne(l *notifyList) {
 	st.mu.Lock()
 	if latomic.LoadUint32(&l.notify) != latomic.LoadUint32(&l.wait) {
 		latomic.AddUint32(&l.notify, 1)
-		st.cond.Signal()
+		// all waiters share one condition variable: wake them all so that the
+		// one holding the released ticket is certainly among them
+		st.cond.Broadcast()
 	}
 	st.mu.Unlock()
 }
